@@ -81,9 +81,10 @@ def conjuncts(g):
     return [g]
 
 
-def prove_one(hyps, goal, quick):
+def prove_one(hyps, goal, quick, retry=False):
     """returns (status, backend, model|None, solver)"""
     budgets = [(False, 3000), (True, 8000)] if quick else [(False, 10000), (True, 60000), (False, 60000)]
+    if retry: budgets = [(False, 12000), (True, 25000)]
     last = None
     for mbqi, tmo in budgets:
         s = z3.Solver(); s.set("timeout", tmo); s.set("smt.mbqi", mbqi)
@@ -103,15 +104,15 @@ def prove_one(hyps, goal, quick):
     return "undecided", "z3+cvc5", None, last
 
 
-def discharge(ob, quick=True):
+def discharge(ob, quick=True, retry=False):
     """ob: dict with hyps, goal.  The goal is split into its conjuncts, each proved separately."""
     t_all = time.time()
     status, backends = "proved", set()
     for g in conjuncts(ob["goal"]):
-        st, be, model, s = prove_one(ob["hyps"], g, quick)
+        st, be, model, s = prove_one(ob["hyps"], g, quick, retry)
         backends.add(be)
         if st == "proved":
-            if not quick:
+            if not quick and not retry:
                 r2, _ = check_cvc5(s, 20000)
                 if r2 == "sat":
                     ob["status"] = "fault"; ob["why"] = "solver disagreement: z3 unsat, cvc5 sat"; ob["backend"] = "z3+cvc5"
